@@ -188,6 +188,10 @@ func (pnf *PageNumberFinder) getPageInfoAndText(link *html.Node, pageURL *nurl.U
 			return nil, ""
 		}
 
+		if hrefURL.Scheme != "http" && hrefURL.Scheme != "https" {
+			return nil, ""
+		}
+
 		hrefURL, err = nurl.Parse(linkHref)
 		if err != nil {
 			return nil, ""
@@ -200,9 +204,10 @@ func (pnf *PageNumberFinder) getPageInfoAndText(link *html.Node, pageURL *nurl.U
 	}
 
 	if isEmptyHref || isJavascriptLink {
+		// Such links only mark a page number, they have no URL that can be fetched.
 		return &info.PageInfo{
 			PageNumber: number,
-			URL:        linkHref,
+			URL:        "",
 		}, linkText
 	}
 
